@@ -148,16 +148,15 @@ theorem finishVm_failed_exact {c : Ctx} {w : World} {bp : Nat} {tx : Tx} {snd rc
       cases hl
   · subst h; simp [successBranch] at hf
 
-theorem finishOwn_failed_exact {c : Ctx} {w : World} {bp : Nat} {tx : Tx} {acc : Copy} {isFD : Bool}
+theorem finishOwn_failed_exact_of {w : World} {bp : Nat} {tx : Tx} {acc : Copy} {o : ExecOut}
     {st : Status} {res : Result} (ho : acc.old = w.acct acc.id)
-    (h : finishOwn w bp tx st (executeOwn c w tx acc isFD) = res)
+    (k1 : o.rcv.id = acc.id) (k2 : o.rcv.old = acc.old) (k4 : o.err = some .runtime → o.leak = false → o.w = w)
+    (h : finishOwn w bp tx st o = res)
     (hf : res.outcome = .failed) (hl : res.leak = false) :
     ∃ fee, res.receipt = some { status := .error, fee, feeDelegation := tx.type = .feeDelegation, contract := acc.id } ∧
       res.bp = bp + fee ∧
       res.w = chargeFeeNonce w (tx.type = .feeDelegation) acc.id acc.id fee tx.nonce ∧
       fee ≤ (if (tx.type = .feeDelegation) ∧ acc.id ≠ acc.id then w.bal acc.id else w.bal acc.id) := by
-  generalize hoo : executeOwn c w tx acc isFD = o at h
-  obtain ⟨k1, k2, k3, k4⟩ := executeOwn_spec hoo
   have sf := subBalance_facts o.rcv o.fee
   unfold finishOwn at h
   simp only [] at h
@@ -179,6 +178,17 @@ theorem finishOwn_failed_exact {c : Ctx} {w : World} {bp : Nat} {tx : Tx} {acc :
       cases hl
   · subst h; simp [successBranch] at hf
 
+theorem finishOwn_failed_exact {c : Ctx} {w : World} {bp : Nat} {tx : Tx} {acc : Copy} {isFD : Bool}
+    {st : Status} {res : Result} (ho : acc.old = w.acct acc.id)
+    (h : finishOwn w bp tx st (executeOwn c w tx acc isFD) = res)
+    (hf : res.outcome = .failed) (hl : res.leak = false) :
+    ∃ fee, res.receipt = some { status := .error, fee, feeDelegation := tx.type = .feeDelegation, contract := acc.id } ∧
+      res.bp = bp + fee ∧
+      res.w = chargeFeeNonce w (tx.type = .feeDelegation) acc.id acc.id fee tx.nonce ∧
+      fee ≤ (if (tx.type = .feeDelegation) ∧ acc.id ≠ acc.id then w.bal acc.id else w.bal acc.id) := by
+  obtain ⟨k1, k2, _, k4⟩ := executeOwn_spec (c := c) (w := w) (tx := tx) (acc := acc) (isFD := isFD) rfl
+  exact finishOwn_failed_exact_of ho k1 k2 k4 h hf hl
+
 /-- **A transaction that fails at run time changes exactly fee and nonce**: the whole world — every
 account, every contract's storage, creator records, staking, votes, names — equals the world before
 with the fee taken from the payer and the sender's nonce advanced; unless the result is flagged `leak`
@@ -196,9 +206,15 @@ theorem executeTx_failed_exact {c : Ctx} {w : World} {bp : Nat} {tx : Tx} {res :
     · subst h; simp at hf
     · have hso : (w.getCopy tx.sender).old = w.acct (w.getCopy tx.sender).id := by simp
       split at h
-      · have := runtimeBranch_exact hso hso h hf
-        simp only [getCopy_id] at this
-        exact ⟨_, this.1, rfl, this.2.1, this.2.2.1, this.2.2.2⟩
+      · split at h
+        · -- MULTICALL with a multicall script: `receiver = sender`
+          have ok := executeMulti_ok (c := c) (w := w) (tx := tx) (acc := w.getCopy tx.sender) rfl
+          obtain ⟨fee, q1, q2, q3, q4⟩ := finishOwn_failed_exact_of hso ok.rid ok.rold ok.runtime h hf hl
+          simp only [getCopy_id] at q1 q3 q4
+          exact ⟨_, q1, rfl, q2, q3, q4⟩
+        · have := runtimeBranch_exact hso hso h hf
+          simp only [getCopy_id] at this
+          exact ⟨_, this.1, rfl, this.2.1, this.2.2.1, this.2.2.2⟩
       · split at h
         · subst h; simp at hf
         · rename_i rcv st hrcv
